@@ -23,6 +23,15 @@ CLAIMED["C11"] = dict(
     note="Exact reals; numpy replaced by symnp in iodata.iodata/attrutils/orbitals; longer histories outside; one recorded finding (stale cached default core charges).",
     ref="4/C11")
 
+CLAIMED["C10"] = dict(
+    text="Bounded symbolic model checking of convention conversion: the real _convert_convention_shell on label lists with symbolic identities and sign bits (n<=3, thorough 4; all set partitions arise as solver-decided forks) and symbolic coefficient vectors: signed-permutation law, rejection iff the conventions do not name the same functions, reverse flag is the inverse, A->B->C = A->C; convert_conventions for every ordered pair (and chosen triples) of the built-in tables on all shared shell types with offsets across shells and generalized contractions; table well-formedness and documented orders; all single-label corruptions rejected.",
+    note="Labels modelled as (identity, sign) pairs; n>4 symbolic labels outside; documented orders transcribed by hand in specs/conventions_ref.py.",
+    ref="4/C10")
+CLAIMED["C14"] = dict(
+    text="Bounded symbolic model checking of convert_to_segmented / convert_to_unrestricted / prepare_segmented / prepare_unrestricted_aminusb: for all real exponents, contraction coefficients, occupations, occs_aminusb, MO coefficients and energies z3 proves the list of basis-function expansions (in linearly independent normalised primitives) is unchanged and in the same order, alpha/beta occupations, coefficients, energies, irreps, alpha and beta density matrices (as polynomials), nelec and spinpol are preserved; idempotence, identity short-cuts, rejection of generalized orbitals, warning/error contract of prepare_*.",
+    note="Shell structure menus are finite (1-3 shells, up to 3 (thorough 5) contractions, up to 3 (4) orbitals); exact reals.",
+    ref="4/C14")
+
 NOT_YET = "check not built yet in this round (planned, see DESIGN.md section 4)"
 NA = {}
 
